@@ -489,10 +489,27 @@ pub fn extend_from_slice<const N: usize, const P: u32, S: Src>(s: &mut S) {
     finish::<N, P>(buf, &m, &held, Created { contents: len, items: 0, sources: MAXSRC, made: 0 });
 }
 
-/// by-value iterator handing out `Tok::new(0x50), Tok::new(0x51), ..`
+/// by-value iterator handing out `Tok::new(0x50), Tok::new(0x51), ..`; its `size_hint` is any pair the Iterator
+/// contract allows (lower <= remaining <= upper, upper possibly None), chosen by the solver: an implementation
+/// may use the hint for reservation or fast paths but must not let it decide the result
 pub struct GenIter {
     pub next: u8,
     pub remaining: usize,
+    pub slack_lo: usize,
+    pub slack_hi: Option<usize>,
+}
+impl GenIter {
+    pub fn new(next: u8, remaining: usize) -> GenIter {
+        GenIter { next, remaining, slack_lo: 0, slack_hi: Some(0) }
+    }
+    /// symbolic, contract-abiding size hint
+    pub fn with_hint<S: Src>(next: u8, remaining: usize, s: &mut S) -> GenIter {
+        let slack_lo = s.usize();
+        s.assume(slack_lo <= remaining);
+        let bounded = s.bool();
+        let extra = s.usize();
+        GenIter { next, remaining, slack_lo, slack_hi: if bounded { Some(extra) } else { None } }
+    }
 }
 impl Iterator for GenIter {
     type Item = Tok;
@@ -501,9 +518,18 @@ impl Iterator for GenIter {
             return None;
         }
         self.remaining -= 1;
+        if self.slack_lo > self.remaining {
+            self.slack_lo = self.remaining;
+        }
         let t = Tok::new(self.next);
         self.next += 1;
         Some(t)
+    }
+    fn size_hint(&self) -> (usize, Option<usize>) {
+        (self.remaining - self.slack_lo, match self.slack_hi {
+            Some(x) => self.remaining.checked_add(x),
+            None => None,
+        })
     }
 }
 
@@ -511,7 +537,9 @@ pub fn extend<const N: usize, const P: u32, S: Src>(s: &mut S) {
     let St { mut buf, mut m, len, .. } = build::<N, S>(s);
     let k = s.usize();
     s.assume(k <= 2 * N + 1);
-    buf.extend(GenIter { next: 0x50, remaining: k });
+    let it = GenIter::with_hint(0x50, k, s);
+    cov!(it.size_hint().1.map(|u| u > N && k < N).unwrap_or(false), "extend: the iterator's upper bound exceeds the capacity but it yields fewer elements");
+    buf.extend(it);
     let mut i = 0;
     while i < k {
         m.push_back(orig(0x50 + i as u8));
